@@ -17,6 +17,7 @@ from mc.engine import ok, bad, unspecified
 from mc.common import call, Raised, DimArray
 
 ID = "C02"
+OEO = True      # a third of the cases get a second pass on the same array after an in-place edit (engine._oeo)
 TITLE = "label slices inclusive, position slices NumPy-like"
 RULE = ("product of (axis label vector: monotonic int/float both directions len 0..N, every non-monotonic "
         "permutation, str axes in every order) x (start, stop in None/below/labels/midpoints/above or labels+absent) "
